@@ -34,12 +34,24 @@
 #include "SessionObject.h"
 #include "SessionObjectStore.h"
 
+// Release the copy of the attributes that was taken for a transaction
+static void discardSavedAttributes(std::map<CK_ATTRIBUTE_TYPE, OSAttribute*>& saved)
+{
+	for (std::map<CK_ATTRIBUTE_TYPE, OSAttribute*>::iterator i = saved.begin(); i != saved.end(); i++)
+	{
+		delete i->second;
+	}
+
+	saved.clear();
+}
+
 // Constructor
 SessionObject::SessionObject(SessionObjectStore* inParent, CK_SLOT_ID inSlotID, CK_SESSION_HANDLE inHSession, bool inIsPrivate)
 {
 	hSession = inHSession;
 	slotID = inSlotID;
 	isPrivate = inIsPrivate;
+	inTransaction = false;
 	objectMutex = MutexFactory::i()->getMutex();
 	valid = (objectMutex != NULL);
 	parent = inParent;
@@ -285,6 +297,9 @@ void SessionObject::discardAttributes()
 	std::map<CK_ATTRIBUTE_TYPE, OSAttribute*> cleanUp = attributes;
 	attributes.clear();
 
+	discardSavedAttributes(savedAttributes);
+	inTransaction = false;
+
 	for (std::map<CK_ATTRIBUTE_TYPE, OSAttribute*>::iterator i = cleanUp.begin(); i != cleanUp.end(); i++)
 	{
 		if (i->second == NULL)
@@ -300,16 +315,51 @@ void SessionObject::discardAttributes()
 // These functions are just stubs for session objects
 bool SessionObject::startTransaction(Access)
 {
+	MutexLocker lock(objectMutex);
+
+	if (!inTransaction)
+	{
+		// Remember the current attributes so that they can be restored on abort
+		for (std::map<CK_ATTRIBUTE_TYPE, OSAttribute*>::iterator i = attributes.begin(); i != attributes.end(); i++)
+		{
+			if (i->second == NULL) continue;
+
+			savedAttributes[i->first] = new OSAttribute(*i->second);
+		}
+
+		inTransaction = true;
+	}
+
 	return true;
 }
 
 bool SessionObject::commitTransaction()
 {
+	MutexLocker lock(objectMutex);
+
+	discardSavedAttributes(savedAttributes);
+	inTransaction = false;
+
 	return true;
 }
 
 bool SessionObject::abortTransaction()
 {
+	MutexLocker lock(objectMutex);
+
+	if (inTransaction)
+	{
+		// Put back the attributes the object had before the transaction
+		for (std::map<CK_ATTRIBUTE_TYPE, OSAttribute*>::iterator i = attributes.begin(); i != attributes.end(); i++)
+		{
+			delete i->second;
+		}
+
+		attributes = savedAttributes;
+		savedAttributes.clear();
+		inTransaction = false;
+	}
+
 	return true;
 }
 
